@@ -127,6 +127,19 @@ CHECKS = {
                         "ECDSA signatures are randomised: checked by verification, not by equality"],
         "expected_probes": ["runs_all_results_equal"],
     },
+    "C20": {
+        "special": "xcfg", "batches": [],
+        "k": {"quick": 12, "thorough": 160},
+        "rule": ("the transcript program (sim/xcfg) is built from /repo's working tree in 4 configurations {default (ADX), CGO_CFLAGS='-O2 -D__BLST_PORTABLE__', -tags purego, CGO_ENABLED=0 -tags no_cgo (non-BLS sections only)} "
+                 "and run over k seeds per section kind: hash/<i> (SHA2, SHA3, Keccak, KMAC128: 22 input sizes around the rate boundaries, one-shot and seeded unaligned incremental writes), prg/<i>, ecdsa/<i> (key derivation, "
+                 "encodings, verdicts incl. signatures exported by the default build), bls/<i> (key generation, signatures, PoP, SPoCK, aggregation, multi/batch verification verdicts, decoding of invalid points, threshold "
+                 "keygen + reconstruction), dkgsim-C07/<i>, dkgsim-C08/<i>, thrnet-C06/<i> (complete simulated runs: every message byte, callback and key enters the event hash). "
+                 "evaluations = section transcripts produced; distinct_nontrivial = distinct sections compared between the default and at least one other configuration"),
+        "real": ["the whole module in each build configuration (BLST with and without ADX, amd64 assembly vs pure-Go Keccak and xor helpers, no_cgo stubs)"],
+        "stub": ["none inside a configuration; the multi-party sections reuse the dkgsim/thrnet simulators with fixed seeds"],
+        "assumptions": ["no schedule or fault is involved: this check uses only the fact that a simulated run is a bit-exact function of its seed", "the -D__BLST_NO_ASM__ variant does not compile on amd64 at the pinned commit and is not part of the claim",
+                        "ECDSA signing is randomised: signature bytes are compared through verification verdicts (signatures exported by the default build must verify everywhere)"],
+    },
     "C14": {
         "batches": [
             {"engine": "prgcrash", "mode": "", "runs": {"quick": 40000, "thorough": 1500000},
